@@ -52,10 +52,21 @@ def nice_or_log(lo: float, hi: float, nice=(1.0,)):
 # ------------------------------------------------------------------------------------------------
 
 
-def grid_shape(dim: int, n_min: int, n_max: int, max_cells: int | None = None):
-    """Each extent independently in [n_min, n_max]; biased to non-cubic through independence."""
+def grid_shape(dim: int, n_min: int, n_max: int, max_cells: int | None = None, long_axis: int | None = None):
+    """Each extent independently in [n_min, n_max]; biased to non-cubic through independence.
+
+    long_axis: in a quarter of the draws one (drawn) axis gets an extent in [17, long_axis] instead - beyond the block, slab
+    and chunk sizes (16, 32) that blocked/tiled implementations use, at small cost because the other axes stay short."""
     ext = st.integers(min_value=n_min, max_value=n_max)
     s = st.tuples(*([ext] * dim)).map(list)
+    if long_axis is not None and long_axis > max(17, n_max):
+        def stretch(t):
+            shape, ax, n, on = t
+            shape = list(shape)
+            if on == 0:
+                shape[ax] = n
+            return shape
+        s = st.tuples(s, st.integers(0, dim - 1), st.integers(17, long_axis), st.integers(0, 3)).map(stretch)
     if max_cells is not None:
         def clip(shape):
             shape = list(shape)
